@@ -332,15 +332,16 @@ Definition in_amounts (st : wstate) (ins : list (Z * Z)) : option (list Z) :=
 
 Definition sumZ (l : list Z) : Z := fold_right Z.add 0 l.
 
-(* the largest estimated size any candidate of the fee loop can have *)
-Definition size_cap (nout payload : Z) : Z :=
-  estimate_signed_size (Z.of_nat sel_k + 1) (nout + 1) payload.
+(* the largest estimated size a candidate of the fee loop can have when [nel] coins are eligible:
+   at most min(nel, K) inputs (Proofs.find_eligible_length), the requested outputs and a change *)
+Definition size_cap (nel nout payload : Z) : Z :=
+  estimate_signed_size (Z.min nel (Z.of_nat sel_k)) (nout + 1) payload.
 
-(* upper bound of the fee: what the user offered, or (user fee 0) the relay minimum, or the
-   relay minimum of a standard-size transaction — as long as every candidate is of standard size;
-   beyond that, the relay minimum of the largest candidate. *)
-Definition fee_cap (userfee nout payload : Z) : Z :=
-  Z.max (init_target userfee) (required_fee (Z.max max_standard_tx_size (size_cap nout payload))).
+(* upper bound of the fee: what the user offered, or (user fee 0) the relay minimum, or the relay
+   minimum of a standard-size transaction — as long as every candidate is of standard size; beyond
+   that (K inputs, very many outputs, a large payload) the relay minimum of the largest candidate. *)
+Definition fee_cap (userfee nel nout payload : Z) : Z :=
+  Z.max (init_target userfee) (required_fee (Z.max max_standard_tx_size (size_cap nel nout payload))).
 
 (* Clause numbers of [auto_tx_check] (returned when violated):
    1 an input is not an eligible coin of the wallet (own, sender address, unspent, mature, standard,
@@ -380,7 +381,7 @@ Definition auto_tx_check (st : wstate) (r : areq) (t : otx) : list Z :=
    end) ++
   (if a_userfee r <=? t_fee t then [] else [6]) ++
   (if required_fee (estimate_signed_size nin nout (a_payload r)) <=? t_fee t then [] else [7]) ++
-  (if t_fee t <=? fee_cap (a_userfee r) (Z.of_nat nreq) (a_payload r) then [] else [8]) ++
+  (if t_fee t <=? fee_cap (a_userfee r) (Z.of_nat (length el)) (Z.of_nat nreq) (a_payload r) then [] else [8]) ++
   (if forallb (fun i => snd i =? std_seq (a_locktime r)) (t_ins t) then [] else [9]) ++
   (match extra with
    | [(_, v)] => if v <? min_relay then [10] else []
